@@ -57,13 +57,16 @@ func (i *Iter) Next() bool {
 	if start == nil {
 		return i.Next()
 	}
+	// Do not hand out the JID of the previous item again if this one has none,
+	// and do not hand out an item if its JID does not parse.
+	i.current = jid.JID{}
 	for _, attr := range start.Attr {
 		if attr.Name.Local == "jid" {
 			i.current, i.err = jid.Parse(attr.Value)
 			break
 		}
 	}
-	return true
+	return i.err == nil
 }
 
 // Err returns the last error encountered by the iterator (if any).
